@@ -635,7 +635,7 @@ func ruleHandlersOwnCopy(c *Ctx, rule string) {
 				}
 			case *ssa.Call:
 				sc := x.Call.StaticCallee()
-				if sc == cp && len(x.Call.Args) == 1 && x.Call.Args[0] == ssa.Value(cur) {
+				if sc == cp && len(x.Call.Args) == 1 && (x.Call.Args[0] == ssa.Value(cur) || spilledParam(x.Call.Args[0]) == cur) {
 					copies[x] = true
 					return
 				}
@@ -895,4 +895,29 @@ func ruleBoundTextIsConsumedText(c *Ctx, rule string) {
 		}
 	}
 	r.Floor(rule, "call sites of INSERTVARIABLE", n, 2)
+}
+
+// spilledParam: v is a load of the local that a parameter was spilled to (because a closure of the function captures it); the
+// parameter, or nil.
+func spilledParam(v ssa.Value) *ssa.Parameter {
+	u, ok := v.(*ssa.UnOp)
+	if !ok || u.Op != token.MUL {
+		return nil
+	}
+	a, ok := u.X.(*ssa.Alloc)
+	if !ok {
+		return nil
+	}
+	var p *ssa.Parameter
+	n := 0
+	for _, ref := range *a.Referrers() {
+		if st, ok := ref.(*ssa.Store); ok && st.Addr == ssa.Value(a) {
+			n++
+			p, _ = st.Val.(*ssa.Parameter)
+		}
+	}
+	if n == 1 {
+		return p
+	}
+	return nil
 }
